@@ -131,7 +131,7 @@ def check(repo: Repo, R) -> None:
     R.check(par and byname, rule, key_of(fs, "parallel-ports"), fs.site,
             f"the parallel ports are the module ports that are not one of the two resolved series ports (identity test against the resolved pair: {par}), each wired to the unit port of its own name ({byname})",
             why="with series ports given as Signals a test by name against params.conns never matches: the series ports are wired in parallel too; or parallel ports are left open / crossed")
-    ports = [n for n in au.walk_no_nested(fs.node) if isinstance(n, ast.For) and ast.unparse(n.iter) == f"io({p}.unit).values()"]
+    ports = [n for n in au.walk_no_nested(fs.node) if isinstance(n, ast.For) and ast.unparse(n.iter) in (f"io({p}.unit).values()", f"bundled_io({p}.unit).values()")]
     ok = len(ports) == 1 and bool(pat.find(f"{M}.add(deepcopy({ast.unparse(ports[0].target)}))", ports[0]))
     R.check(ok, rule, key_of(fs, "ports-cloned"), fs.site, f"the generated module has a copy of each unit port — signal and bundle valued (io(unit)): {ok}", why="module ports differ from the unit's: bundle-valued ports of the unit are neither exposed nor wired")
     arr_after = bool(arr) and bool(writes) and all(shared.precedes(fs.node, w[3], arr[0][0]) for w in writes)
@@ -189,7 +189,7 @@ def check(repo: Repo, R) -> None:
     rule = "C19.4-wrapper"
     fw = repo.func(F_GENERATORS, "Wrapper")
     a = fw.node.args.args[0].arg
-    io_all = bool(pat.find(f"wrapper_io = {{$P.name: wrapper.add(deepcopy($P)) for $P in io({a}).values()}}", fw.node))
+    io_all = bool(pat.find(f"wrapper_io = {{$P.name: wrapper.add(deepcopy($P)) for $P in io({a}).values()}}", fw.node)) or bool(pat.find(f"wrapper_io = {{$P.name: wrapper.add(deepcopy($P)) for $P in bundled_io({a}).values()}}", fw.node))
     inner = bool(pat.find(f"wrapper.add(h.Instance(name='inner', of={a})(**wrapper_io))", fw.node))
     # the copies are made with deepcopy: both port kinds define it as a copy that shares the definition and has fresh connection tracking
     dc = {}
@@ -201,6 +201,9 @@ def check(repo: Repo, R) -> None:
             why="Wrapper (and Series) of a module with a bundle-valued port raise TypeError: deepcopy descends into the Bundle definition and its source info")
     R.check(io_all and inner, rule, key_of(fw), fw.site, f"Wrapper clones every port of io(m) — signal and bundle valued — keyed by its name ({io_all}) and passes each to the same-named port of the single inner instance ({inner})",
             why="bundle-valued ports are not exposed, or ports are wired to differently named ports")
+    # ... the unit's ports as a new parent sees them, whether or not the unit was elaborated before
+    from . import c07 as _c07
+    R.run(_c07.new_parents_see_original_ports, repo, R, "C19.4-wrapper")
     # the array partition this topology relies on
     R.run(c01.array_partition, repo, R, "C19.5-array-element-k-gets-bit-k")
     # the generators build a fresh module on every call: no table of earlier results lives in the file
